@@ -119,6 +119,7 @@ MIN_EVALS = {
         'same_start.section-average==master': 4700,
         'same_start.shift-is-constant': 4700,
         'same_start.values-are-arrays': 1600,
+        'scan.array-values==attribute(combination)': 740,
         'scan.angles==mod(linspace)': 6700,
         'scan.half-circle-endpoints': 1500,
         'scan.offset+180-relation': 620,
@@ -158,6 +159,7 @@ MIN_EVALS = {
         'same_start.section-average==master': 85000,
         'same_start.shift-is-constant': 85000,
         'same_start.values-are-arrays': 28000,
+        'scan.array-values==attribute(combination)': 14000,
         'scan.angles==mod(linspace)': 130000,
         'scan.half-circle-endpoints': 31000,
         'scan.offset+180-relation': 12000,
@@ -323,7 +325,7 @@ def build_measures(eqsig):
         'f:signed-max': dict(func=_m_signed_max, parity=None, scale=s_peak),
         'f:signed-min': dict(func=_m_signed_min, parity=None, scale=s_peak),
         'f:signed-sample': dict(func=_m_sample, parity='odd', scale=lambda A, dt: float(A[len(A) // 3])),   # local scale
-        'f:cube-mean': dict(func=_m_cube_mean, parity='odd', scale=lambda A, dt: float(np.max(A)) ** 3),
+        'f:cube-mean': dict(func=_m_cube_mean, parity='odd', scale=lambda A, dt: float(np.float64(np.max(A)) ** 3)),
         'f:cumsum-series-last': dict(func=_m_cumsum_series, parity='odd', scale=s_sum),
         'f:cumsum-list-last': dict(func=_m_cumsum_list, parity='odd', scale=s_sum),
         'f:velocity-series-last': dict(func=_m_velocity_series, parity='odd', scale=s_vel),
@@ -1532,8 +1534,8 @@ def make_cluster_case(rng, k, extra=False):
         case['rotate_members'] = {'other': int([i for i in range(nsig) if i != master][int(rng.integers(nsig - 1))]),
                                   'theta': float(np.round(rng.uniform(-360, 360), 2)),
                                   'scan': _make_scan(rng, OFFSET_KINDS[int(rng.integers(len(OFFSET_KINDS)))],
-                                                     SENSITIVE[int(rng.integers(len(SENSITIVE)))], int(rng.choice([1, 2, 3])),
-                                                     False, 'kw')}
+                                                     (LINEAR_SENSITIVE if 'extreme' in str(bcls) else SENSITIVE)[int(rng.integers(7))],
+                                                     int(rng.choice([1, 2, 3])), False, 'kw')}
     if not long_case and rng.random() < 0.3:
         # a second cluster of the same shape (negated lags on another base) for the process-wide-state relation
         b2, _ = gen.record(rng, n + 2 * steps, cls='noise')
